@@ -190,9 +190,11 @@ def run(ctx):
     for name, stub, src in DIRECTED:
         for ow in (False, True):
             for conf in (False, True):
+                if conf and quick and name not in ("b13", "merge", "quote_and_class", "dotted"):
+                    continue
                 todo.append((stub, src, ow, conf, f"directed:{name}"))
 
-    n_mod = 6 if quick else 80
+    n_mod = 5 if quick else 80
     for mi in range(n_mod):
         m = apply_gen.Mod(rnd, f"{tag}_m{mi}", shapes, mi)
         src = m.text()
@@ -275,10 +277,10 @@ def run(ctx):
     nontrivial = {common.digest(c["term"]) for c in cases
                   if c["out"] is not None and c["out"] != c["source"]}
     samples = [{"meta": c["meta"], "overwrite": c["overwrite"], "confine": c["confine"], "stub": c["stub"][:600],
-                "source": c["source"][:600], "impl_output": (c["out"] or "")[:600]} for c in cases[len(DIRECTED) * 4:][:3]]
+                "source": c["source"][:600], "impl_output": (c["out"] or "")[:600]} for c in cases if not c["meta"].startswith("directed")][:3]
     return {
         "evaluations": len(cases), "distinct_nontrivial": len(nontrivial),
-        "rule": "12 directed (stub, source) pairs x overwrite x confinement, then generated modules (docstring, __future__, "
+        "rule": "12 directed (stub, source) pairs x overwrite x confinement (quick: confinement on for 4 of them), then generated modules (docstring, __future__, "
                 "existing typing/user imports incl. qualifying and clashing ones, late and function-local imports, comments, "
                 "decorators, nested defs, partial annotations, classes with class-level code, functions inside if-blocks, "
                 "nested classes) x stubs rendered by build_module_stubs_from_traces from CallTraces of subsets of the functions "
